@@ -188,7 +188,9 @@ def body(ctx, case):
     d0, d1 = build(spec, 0), build(spec, 1)
     snap = json.dumps(d0.to_dict(), sort_keys=True, default=str)
     # RuntimeError: scipy's nnls gives up ("Maximum number of iterations reached") - whether that is acceptable is C18's subject
-    refusals = (DRTError, FittingError, KramersKronigError, ZHITError, ValueError, RuntimeError)
+    from pyimpspec.exceptions import ImpedanceError
+
+    refusals = (DRTError, FittingError, KramersKronigError, ZHITError, ImpedanceError, ValueError, RuntimeError)
     try:
         out0, c0 = run_entry(entry, opts, d0)
     except refusals as e:
